@@ -2096,6 +2096,11 @@ class TenSym(PySym):
                     return Ten((len(cs),), [Rat(Poly.const(i_)) for i_ in sorted(range(len(cs)), key=lambda i_: cs[i_])])
                 best = min(cs) if cn == "np.argmin" else max(cs)
                 return Rat(Poly.const(cs.index(best)))
+            ax_ = self.pyval(axis)
+            if t.ndim == 2 and ax_ in (1, -1) and all(c is not None for c in cs) and cn in ("np.argmin", "np.argmax"):
+                w_ = t.shape[1]
+                rows_ = [cs[r_ * w_:(r_ + 1) * w_] for r_ in range(t.shape[0])]
+                return Ten((t.shape[0],), [Rat(Poly.const(r_.index(min(r_) if cn == "np.argmin" else max(r_)))) for r_ in rows_])
             raise Unsupported("%s depends on the order of symbolic values" % cn)
         raise Unsupported("call %s" % cn)
 
